@@ -230,7 +230,8 @@ def gen_case(seed, tier='quick'):
         info['switch_at'] = addrs[i]
     if cls in ('fail', 'cycle_fail'):
         d = rng.randrange(n)
-        fk = rng.choice(['nosuch', 'nosuch', 'boom', 'flaky'])
+        fk = rng.choice(['nosuch', 'nosuch', 'boom', 'flaky', 'flaky',
+                         'oserr', 'keyerr', 'valerr', 'rterr', 'timeout'])
         if cls == 'cycle_fail' and fk == 'flaky':
             fk = 'boom'
         nodes[d]['fail'] = fk
@@ -265,6 +266,7 @@ def gen_case(seed, tier='quick'):
             range_names['block'] = f'{sheets[0]}!{a1}:{a2}'
     world = {'class': cls, 'info': info, 'nodes': nodes, 'sheets': sheets,
              'switches': switches, 'padding': padding,
+             'decoy': rng.random() < 0.3,
              'range_names': range_names,
              'names': ctx['names'],
              'qualify': bool(two or rng.random() < 0.3),
@@ -355,6 +357,8 @@ def render(world):
             body = body + '+BOOM()'
         elif nd['fail'] == 'flaky':
             body = f'FLAKY({body})'
+        elif nd['fail']:
+            body = body + f"+FAIL_{nd['fail'].upper()}()"
         if len(parts) == 1 and nd['fail'] is None:
             cells[nd['a']] = nd['k']
         else:
@@ -477,7 +481,7 @@ def expectation(g, e, cells, flaky_armed):
         out = set()
         for a in R:
             f = g.nodes[a]['fail']
-            if f in ('nosuch', 'boom') or (f == 'flaky' and flaky_armed):
+            if (f and f != 'flaky') or (f == 'flaky' and flaky_armed):
                 out.add(a)
         return out
     fl, fa = failing(Rl), failing(Ra)
@@ -555,6 +559,23 @@ def run_case(case):
     with Ambient(case['seed']):
         s0 = world.get('sheets', ['Sheet1'])[0]
         probes = probe_cells(world)
+        if world.get('decoy') and world['names']:
+            # an earlier workbook in this process: same formula texts and
+            # names, the names bound to other cells
+            addrs_ = [nd['a'] for nd in world['nodes']]
+            rot = {nm: worlds.dollar(addrs_[(addrs_.index(a) + 1) %
+                                            len(addrs_)])
+                   for nm, a in world['names'].items() if a in addrs_}
+            try:
+                dm = worlds.build_model(cells, rot, default_sheet=s0)
+                dev = Evaluator(dm, UserFuncs(None).namespace())
+                for a in addrs_[:12]:
+                    stq = Stepper(max_steps=200_000, max_depth=900)
+                    with stq:
+                        outcome_of(dev.evaluate, a)
+                bump('probe:decoy_model_first')
+            except Exception:
+                pass
         model = worlds.build_model(cells, names, default_sheet=s0)
         uf = UserFuncs(fail_on=world.get('fail_on'))
         ev = Evaluator(model, uf.namespace())
